@@ -9,6 +9,7 @@ import (
 	stdslog "log/slog"
 	"os"
 	"strings"
+	"sync"
 	"time"
 
 	"github.com/hedzr/is"
@@ -24,6 +25,7 @@ func init() {
 	reg("C15", "handler", c15handler)
 	reg("C15", "bridge", c15bridge)
 	reg("C15", "levelsweep", c15levelsweep)
+	reg("C15", "conc", c15concurrent)
 }
 
 type valuer struct{ v stdslog.Value }
@@ -450,15 +452,21 @@ func c15bridge(c *Ctx) {
 		lg := lgL.Root()
 		lg.SetWriter(w).SetErrorWriter(w)
 		setFormat(lg, f)
-		lg.SetLevel(L)
 		debugMode := r.P(30) // the sticky process-wide debug mode additionally admits Debug
-		is.SetDebugMode(debugMode)
-		defer is.SetDebugMode(false)
 		var under slog.Logger = lgL
 		if r.Bool() {
 			under = lg
 		}
+		// the bridge is often built while the logger still has ANOTHER level (incl. Off): admission is decided per message
+		builtAt := L
+		if r.P(50) {
+			builtAt = gen.Pick(r, levels)
+		}
+		lg.SetLevel(builtAt)
 		bl := slog.NewLogLogger(under, sev)
+		lg.SetLevel(L)
+		is.SetDebugMode(debugMode)
+		defer is.SetDebugMode(false)
 		msg := r.Str(gen.StrOpt{HostilePc: 40})
 		switch r.Intn(4) {
 		case 0:
@@ -489,7 +497,7 @@ func c15bridge(c *Ctx) {
 		wantMsg := formatted[:len(formatted)-1] // "minus its trailing newline"
 		adm := admit(L, sev, debugMode, treat)
 		evs := log.Writes("W")
-		desc := map[string]any{"debug_mode": debugMode, "logger_level": L.String(), "bridge_severity": sev.String(), "format": f.String(), "call": []string{"Print", "Printf", "Println", "Output"}[how], "msg": q(clip(msg, 200))}
+		desc := map[string]any{"debug_mode": debugMode, "bridge_built_while_logger_level_was": builtAt.String(), "logger_level": L.String(), "bridge_severity": sev.String(), "format": f.String(), "call": []string{"Print", "Printf", "Println", "Output"}[how], "msg": q(clip(msg, 200))}
 		c.R.Add("bridge_calls", 1)
 		want := 0
 		if adm {
@@ -659,3 +667,74 @@ func c15exec(c *Ctx, out string) {
 }
 
 var _ = errors.New
+
+// c15concurrent: several goroutines log through the SAME derived handler (WithAttrs / WithGroup chain); every record
+// must come out with its own attributes under the group.
+func c15concurrent(c *Ctx) {
+	c.Each(func(idx int, r *gen.R) {
+		log := mon.NewLog()
+		w := mon.New(log, "W", mon.ShapePlain)
+		w.Core().Yield = r.Bool()
+		f := Format(r.Intn(2)) // json / logfmt
+		lgL := slog.New("conc")
+		lg := lgL.Root()
+		lg.SetWriter(w).SetErrorWriter(w)
+		h := slog.NewSlogHandler(lgL, &slog.HandlerOptions{NoColor: true, NoSource: true, JSON: f == FJSON, Level: slog.DebugLevel})
+		is.SetDebugMode(false)
+		var cur stdslog.Handler = h
+		depth := r.Range(1, 3)
+		var groups []string
+		for i := 0; i < depth; i++ {
+			cur = cur.WithAttrs([]stdslog.Attr{stdslog.Int(fmt.Sprintf("pre%d", i), i)})
+			g := fmt.Sprintf("grp%d", i)
+			cur = cur.WithGroup(g)
+			groups = append(groups, g)
+		}
+		sl := stdslog.New(cur)
+		G := gen.Pick(r, []int{2, 4, 8, 16})
+		N := 1500 / G
+		var wg sync.WaitGroup
+		start := make(chan struct{})
+		for g := 0; g < G; g++ {
+			g := g
+			wg.Add(1)
+			go func() {
+				defer wg.Done()
+				<-start
+				for k := 0; k < N; k++ {
+					id := fmt.Sprintf("g%dk%d", g, k)
+					sl.Info("m-"+id, "id", id, "twin", id+"-twin", "n", k, stdslog.Group("sub", "id", id))
+				}
+			}()
+		}
+		close(start)
+		wg.Wait()
+		prefix := strings.Join(groups, ".") + "."
+		seen := map[string]int{}
+		desc := map[string]any{"goroutines": G, "records_per_goroutine": N, "format": f.String(), "group_depth": depth}
+		for _, e := range log.Writes("W") {
+			d, err := decodeRecord(f, e.Data, true, false)
+			if err != nil {
+				c.R.Violation(idx, "concurrent-handler", "C15/concurrent-handler/decode", err.Error()+": "+q(clip(string(e.Data), 400)), desc)
+				return
+			}
+			id := strings.TrimPrefix(d.Msg, "m-")
+			got := map[string]string{}
+			for _, a := range d.Attrs {
+				got[a.Key] = a.Text
+			}
+			if got[prefix+"id"] != id || got[prefix+"twin"] != id+"-twin" || got[prefix+"sub.id"] != id {
+				c.R.Violation(idx, "concurrent-handler", "C15/concurrent-handler/foreign-attributes", fmt.Sprintf("record of call %s carries %sid=%q %stwin=%q %ssub.id=%q: %s", id, prefix, got[prefix+"id"], prefix, got[prefix+"twin"], prefix, got[prefix+"sub.id"], q(clip(string(e.Data), 400))), desc)
+				return
+			}
+			seen[id]++
+		}
+		if len(seen) != G*N {
+			c.R.Violation(idx, "concurrent-handler", "C15/concurrent-handler/lost", fmt.Sprintf("%d distinct records delivered, %d issued", len(seen), G*N), desc)
+			return
+		}
+		c.R.Add("concurrent_handler_records", int64(G*N))
+		c.R.Max("max_writes_in_flight", int64(log.MaxIn))
+		c.R.NonTrivial("conc", idx, c.X("race", ""))
+	})
+}
